@@ -42,16 +42,48 @@ def mkpairs(ps, salt=0):
     return [(mk(k, salt + j), mk(v, salt + j + 1)) for j, (k, v) in enumerate(ps)]
 
 
+# "Which interpreter process are we in": the hash of a str (hash randomisation) or of an identity-hashed
+# object is only stable inside one process.  Token simulates that in-process: == by content, hash by
+# content AND the current epoch; switching the epoch around an unpickle / deepcopy is "the clone is
+# created in another process".  Within one epoch Token obeys the hash contract.
+EPOCH = [0]
+
+
+class Token(object):
+    def __init__(self, n):
+        self.n = n
+
+    def __eq__(self, other):
+        return isinstance(other, Token) and other.n == self.n
+
+    def __ne__(self, other):
+        return not self == other
+
+    def __hash__(self):
+        return hash(('tok', self.n, EPOCH[0]))
+
+    def __repr__(self):
+        return 'Token(%d)' % self.n
+
+
+TOKEN_BASE = 100     # a Token n travels to the model as the hashable atom 100+n
+
+
 def fmk(v, salt=0):
-    """FrozenDict value: ['h', id] hashable object, ['u', n] an unhashable container holding n"""
+    """FrozenDict value: ['h', id] hashable object, ['u', n] an unhashable container holding n,
+    ['t', n] a Token (hashable, process-dependent hash)"""
     if v[0] == 'h':
         return mk(v[1], salt)
+    if v[0] == 't':
+        return Token(v[1])
     return [v[1]]
 
 
 def fval(o):
     if isinstance(o, list) and len(o) == 1 and isinstance(o[0], int):
         return ['u', o[0]]
+    if isinstance(o, Token):
+        return ['t', o.n]
     i = oid(o)
     return ['h', i]
 
@@ -206,6 +238,14 @@ class C17(Property):
         for items in ([], [[1, ['h', 3]]], [[1, ['h', 3]], [3, ['h', 1]]], [[1, ['u', 1]], [3, ['h', 3]]]):
             for m in muts:
                 yield {'t': 'fd', 'items': items, 'ops': [['hash'], m, ['hash'], ['eq', list(reversed(items))]]}
+        # every way of copying, after the hash has been computed, with process-dependent and plain values
+        for items in ([[1, ['t', 0]]], [[1, ['t', 0]], [3, ['h', 1]], [2, ['t', 1]]], [[1, ['h', 3]]], [[1, ['u', 0]], [2, ['t', 2]]], []):
+            for kind in ('copy', 'ccopy', 'deepcopy', 'pickle0', 'pickle2', 'pickle5'):
+                yield {'t': 'fd', 'items': items, 'ops': [['hash'], ['copy', kind], ['eq', list(reversed(items))]]}
+                yield {'t': 'fd', 'items': items, 'ops': [['copy', kind], ['hash']]}
+        for items in [[[1, ['h', 2]], [2, ['t', 1]]], [[4, ['h', 1]], [1, ['h', 9]]]] + (
+                [[[9, ['h', 4]]], [[2, ['u', 1]]], []] if self.thorough else []):
+            yield {'t': 'fd', 'items': items, 'ops': [['hash'], ['copy', 'xproc']]}
         base = [[1, ['h', 3]], [3, ['h', 3]], [2, ['h', 0]]]
         for n in range(0, 4):
             for perm in itertools.permutations(base[:n]):
@@ -346,9 +386,15 @@ class C17(Property):
             d[k] = v
         return [[k, v] for k, v in d.items()]
 
-    def rfpairs(self, rng, ids, lo=0, hi=4, unh=0.15):
-        return [[rng.choice(ids), ['u', rng.randrange(3)] if rng.random() < unh else ['h', rng.choice(ids)]]
-                for _ in range(rng.randint(lo, hi))]
+    def rfpairs(self, rng, ids, lo=0, hi=4, unh=0.15, tok=0.25):
+        def v():
+            x = rng.random()
+            if x < unh:
+                return ['u', rng.randrange(3)]
+            if x < unh + tok:
+                return ['t', rng.randrange(3)]
+            return ['h', rng.choice(ids)]
+        return [[rng.choice(ids), v()] for _ in range(rng.randint(lo, hi))]
 
     def random_fd(self, rng):
         ids = rng.choice([[1, 3], [1, 2, 3, 6], list(range(10))])
@@ -379,7 +425,8 @@ class C17(Property):
             elif x < 0.82:
                 ops.append(['updated', rng.choice(['dict', 'list', 'iter', 'kw']), self.rfpairs(rng, ids, 0, 3)])
             elif x < 0.95:
-                ops.append(['copy', rng.choice(['copy', 'ccopy', 'deepcopy', 'pickle0', 'pickle2', 'pickle5'])])
+                ops.append(['copy', rng.choice(['copy', 'ccopy', 'deepcopy', 'deepcopy', 'pickle0', 'pickle2', 'pickle5']
+                                               + (['xproc'] if self.thorough and rng.random() < 0.02 else []))])
             else:
                 ops.append(['fromkeys', [rng.choice(ids) for _ in range(rng.randint(0, 3))], ['h', rng.choice(ids)]])
         for op in ops:
@@ -396,6 +443,8 @@ class C17(Property):
 
     @staticmethod
     def _fv(v):
+        if v[0] == 't':
+            return 'h%d' % (TOKEN_BASE + v[1])
         return '%s%d' % (v[0], v[1])
 
     def _fps(self, ps):
@@ -661,6 +710,34 @@ class C17(Property):
         except Exception as e:
             return exc_name(e)
 
+    XPROC_CHILD = (
+        'import sys, json, pickle\n'
+        'from bv.props import c17\n'
+        'c17.EPOCH[0] = 1\n'
+        'from boltons.dictutils import FrozenDict\n'
+        'clone = pickle.loads(sys.stdin.buffer.read())\n'
+        'twin = FrozenDict(list(clone.items()))\n'
+        'print(json.dumps({"res": c17.C17._fitems(clone), "type": type(clone).__name__,\n'
+        '                  "eqb": 1 if (clone == twin and twin == clone) else 0,\n'
+        '                  "hb1": c17.C17._hash(clone), "hb2": c17.C17._hash(twin)}))\n')
+
+    def _xproc(self, fd):
+        """pickle here, unpickle in a fresh interpreter with another PYTHONHASHSEED; the child reports the
+        clone's items, and hash(clone) vs hash(FrozenDict(clone.items())) as computed there"""
+        import subprocess
+        import sys
+        seed = os.environ.get('PYTHONHASHSEED', '')
+        env = dict(os.environ, PYTHONHASHSEED='4242' if seed != '4242' else '2424', PYTHONDONTWRITEBYTECODE='1',
+                   PYTHONPATH=os.pathsep.join([REPO, os.path.join(os.path.dirname(__file__), '..', '..')]))
+        p = subprocess.run([sys.executable, '-c', self.XPROC_CHILD], input=pickle.dumps(fd, 2), env=env,
+                           stdout=subprocess.PIPE, stderr=subprocess.PIPE, timeout=60)
+        if p.returncode != 0:
+            return {'exc': 'ChildProcessError', 'msg': p.stderr.decode('utf-8', 'replace')[-300:]}
+        import json as _json
+        out = _json.loads(p.stdout.decode())
+        out['eq'] = out['eqb']
+        return out
+
     def impl_fd(self, case):
         from boltons.dictutils import FrozenDict
         fd = FrozenDict([(mk(k, j), fmk(v, j + 1)) for j, (k, v) in enumerate(case['items'])])
@@ -707,19 +784,36 @@ class C17(Property):
                     rec['type'] = type(res).__name__
                 elif o == 'copy':
                     k = op[1]
-                    if k == 'copy':
-                        res = fd.copy()
-                    elif k == 'ccopy':
-                        res = copy.copy(fd)
-                    elif k == 'deepcopy':
-                        res = copy.deepcopy(fd)
+                    rec['h1'] = self._hash(fd)        # the hash is computed (and cached) BEFORE the copy
+                    if k == 'xproc':
+                        rec.update(self._xproc(fd))
                     else:
-                        res = pickle.loads(pickle.dumps(fd, int(k[6:])))
-                    rec['res'] = self._fitems(res)
-                    rec['type'] = type(res).__name__
-                    rec['eq'] = 1 if (res == fd and fd == res) else 0
-                    if isinstance(res, FrozenDict):
-                        rec['h1'], rec['h2'] = self._hash(fd), self._hash(res)
+                        def make():
+                            if k == 'copy':
+                                return fd.copy()
+                            if k == 'ccopy':
+                                return copy.copy(fd)
+                            if k == 'deepcopy':
+                                return copy.deepcopy(fd)
+                            return pickle.loads(data)
+                        data = pickle.dumps(fd, int(k[6:])) if k.startswith('pickle') else None
+                        res = make()
+                        rec['res'] = self._fitems(res)
+                        rec['type'] = type(res).__name__
+                        rec['eq'] = 1 if (res == fd and fd == res) else 0
+                        if isinstance(res, FrozenDict):
+                            # the clone against a fresh FrozenDict built from the clone's own items
+                            rec['h2'], rec['h3'] = self._hash(res), self._hash(FrozenDict(list(res.items())))
+                        if k == 'deepcopy' or k.startswith('pickle'):
+                            # the same round trip with the clone coming to life where atoms hash differently
+                            EPOCH[0] += 1
+                            try:
+                                res2 = make()
+                                twin2 = FrozenDict(list(res2.items()))
+                                rec['hb1'], rec['hb2'] = self._hash(res2), self._hash(twin2)
+                                rec['eqb'] = 1 if (res2 == twin2 and twin2 == res2) else 0
+                            finally:
+                                EPOCH[0] -= 1
                 elif o == 'fromkeys':
                     res = FrozenDict.fromkeys([mk(k, n) for k in op[1]], fmk(op[2], n))
                     rec['res'] = self._fitems(res)
@@ -741,7 +835,8 @@ class C17(Property):
         return ','.join('%s:%s' % (k, v) for k, v in ps) or '-'
 
     def _rfp(self, ps):
-        return ','.join('%s:%s%s' % (k, v[0], v[1]) for k, v in ps) or '-'
+        return ','.join('%s:%s' % (k, self._fv(v) if isinstance(v[1], int) else '%s%s' % (v[0], v[1]))
+                        for k, v in ps) or '-'
 
     def _ret(self, rec):
         if 'exc' in rec:
@@ -801,7 +896,8 @@ class C17(Property):
                 elif o == 'updated':
                     recs.append('T%s|%s' % (self._rfp(rec['res']), items))
                 elif o == 'copy':
-                    recs.append('Y%s|%s' % (self._rfp(rec['res']), items))
+                    ok = rec.get('h2') == rec.get('h3') and rec.get('hb1') == rec.get('hb2') and rec.get('eqb', 1)
+                    recs.append('Y%s/T%d|%s' % (self._rfp(rec['res']), 1 if ok else 0, items))
                 elif o == 'fromkeys':
                     recs.append('K%s|%s' % (self._rfp(rec['res']), items))
         return ';'.join(recs) if recs else '-'
@@ -1056,11 +1152,11 @@ class C17(Property):
 
     def oracle_fd(self, case, obs):
         def val(v):
-            return ('u', v[1]) if v[0] == 'u' else ('h', v[1])
+            return (v[0], v[1])
         ref = {}
         for k, v in case['items']:
             ref[k] = val(v)
-        hashable = all(v[0] == 'h' for v in ref.values())
+        hashable = all(v[0] != 'u' for v in ref.values())
 
         def asdict(items):
             return {k: val(v) for k, v in items}
@@ -1125,10 +1221,23 @@ class C17(Property):
             elif o == 'copy':
                 if asdict(rec['res']) != ref or len(rec['res']) != len(ref) or not rec['eq']:
                     return Failure('copy', '%s gives %r (== original: %r)' % (op[1], rec['res'], rec['eq']))
-                if 'h1' in rec and hashable and not (isinstance(rec['h1'], int) and rec['h1'] == rec['h2']):
+                if 'h2' in rec and hashable and not (isinstance(rec['h1'], int) and rec['h1'] == rec['h2']):
                     return Failure('hash_order', '%s: hash of the copy %r, of the original %r' % (op[1], rec['h2'], rec['h1']))
-                if 'h1' in rec and not hashable and not (rec['h1'] == rec['h2'] == 'FrozenHashError'):
+                if 'h2' in rec and not hashable and not (rec['h1'] == rec['h2'] == 'FrozenHashError'):
                     return Failure('hash_unhashable', '%s: hash gave %r / %r' % (op[1], rec['h1'], rec['h2']))
+                # the result must be content-hashed like any FrozenDict: its hash is the hash of a fresh
+                # FrozenDict built from ITS OWN items - here, and where the atoms hash differently
+                if 'h3' in rec and rec['h2'] != rec['h3']:
+                    return Failure('hash_clone', '%s (hash computed before): hash(clone)=%r but FrozenDict(clone.items()) '
+                                   'hashes %r' % (op[1], rec['h2'], rec['h3']))
+                if 'hb1' in rec:
+                    self._nt = True
+                    if not rec['eqb']:
+                        return Failure('copy', '%s: clone != FrozenDict(clone.items())' % op[1])
+                    if rec['hb1'] != rec['hb2']:
+                        return Failure('hash_clone', '%s of a FrozenDict whose hash was already computed, clone created where '
+                                       'atoms hash differently (other process / hash seed): hash(clone)=%r but the equal '
+                                       'FrozenDict(clone.items()) hashes %r' % (op[1], rec['hb1'], rec['hb2']))
             elif o == 'fromkeys':
                 want = {k: val(op[2]) for k in op[1]}
                 if asdict(rec['res']) != want or len(rec['res']) != len(want):
